@@ -236,3 +236,154 @@ SUBS = [
     Sub("unequal", sub_unequal, st_uneq, 200, 5000),
     Sub("bulk", sub_bulk, st_bulk, 12, 300, shards_quick=4),
 ]
+
+
+# ---- CLI level: evo_rpe on generated files ---------------------------------------------------------
+
+import os
+
+from vf import cli, pipeline, pairsel
+from vf.checks.c01 import run_cli_case, _find, st_data, _mk_cli_case
+from vf.pairsel import Bad
+
+
+def sub_cli(case):
+    o = case["opts"]
+    extra = ["--delta", repr(float(o["delta"])) if o["delta_unit"] != "f" else str(int(o["delta"])), "--delta_unit", o["delta_unit"],
+             "--delta_tol", repr(float(o["delta_tol"]))]
+    if o["all_pairs"]:
+        extra.append("--all_pairs")
+    if o["pairs_from_reference"]:
+        extra.append("--pairs_from_reference")
+    c, d, ref, est, files, out, out_zip = run_cli_case(case, "rpe", extra)
+    o = c["opts"]
+    fmt = c["fmt"]
+    exp = pipeline.process_reference(c, fmt, ref, est)
+    if out.exit_code != 0:
+        # refusals: no pairs after association, degenerate alignment, or no pose pair realises the delta
+        return "refused"
+    if exp == "refused":
+        raise Mismatch("evo_rpe produced a result although the documented processing chain leaves no pose pairs", observed="missing_refusal")
+    arch = cli.read_archive(out_zip)
+    arch["trajs"] = {"ref": _find(arch, files[1]), "est": _find(arch, files[2])}
+    rsel, esel = exp
+    sest = arch["trajs"]["est"]
+    sref = arch["trajs"]["ref"]
+    got = np.asarray(arch["arrays"]["error_array"], dtype=float)
+    nvals = len(got)
+    if len(sest["P"]) != nvals + 1 or len(sref["P"]) != nvals + 1:
+        raise Mismatch("archive stores %d/%d poses for %d values (expected first pose + one end pose per value)" % (len(sref["P"]), len(sest["P"]), nvals),
+                       observed="stored_traj")
+    if sest["T"] is not None:
+        # which of the associated pairs are stored
+        lut = {float(t): i for i, t in enumerate(est[0][esel].tolist())}
+        try:
+            stored_idx = [lut[float(t)] for t in sest["T"].tolist()]
+        except KeyError:
+            raise Mismatch("a stored estimate stamp is not one of the associated poses", observed="pair_selection")
+        if not np.array_equal(sref["T"], ref[0][[rsel[i] for i in stored_idx]]):
+            raise Mismatch("stored reference and estimate are not the same associated pairs", observed="pair_selection")
+        if not np.array_equal(np.asarray(arch["arrays"]["timestamps"]), sest["T"][1:]):
+            raise Mismatch("timestamps array is not the stamps of the pair end poses", observed="timestamps")
+    else:
+        # KITTI: identify by (unaligned, unprojected) order is impossible in general; frames chains only
+        stored_idx = None
+    relation = pipeline.REL_CLI.get(o["relation"], o["relation"])
+    unit = o["delta_unit"]
+    chain0 = (not o["all_pairs"]) and unit in ("f", "r", "d")
+    if relation == "point_distance_error_ratio" and chain0:
+        # pairs with zero reference distance are skipped, then stored consecutive poses are no longer the pairs
+        if unit != "f":
+            chain0 = False
+        else:
+            dl = int(o["delta"])
+            Pr_sel = ref[1][rsel]
+            if o.get("project"):
+                chain0 = False
+            elif any(float(np.linalg.norm(Pr_sel[k + dl] - Pr_sel[k])) == 0.0 for k in range(0, len(rsel) - dl, dl)):
+                chain0 = False
+    if stored_idx is not None:
+        if stored_idx[0] != 0 or (not o["all_pairs"] and any(b <= a for a, b in zip(stored_idx, stored_idx[1:]))):
+            raise Mismatch("stored poses %s are not the first pose followed by increasing pair ends" % stored_idx[:10], observed="stored_traj")
+        pipeline.check_alignment_stage(c, arch, ref, est, rsel, esel, "rpe", stored_idx)
+        if chain0 and not o.get("project"):
+            # the stored ids must be exactly the chain selected on the processed trajectory
+            src_is_ref = bool(o["pairs_from_reference"])
+            A = np.asarray(arch["arrays"].get("alignment_transformation_sim3", np.eye(4)), dtype=float)
+            s = float(np.cbrt(np.linalg.det(A[:3, :3])))
+            if src_is_ref:
+                Rs = [rm.quat_to_R(q) for q in ref[2][rsel]]
+            else:
+                Rs = [(A[:3, :3] / s) @ rm.quat_to_R(q) for q in est[2][esel]]
+            pairs = list(zip(stored_idx, stored_idx[1:]))
+            try:
+                if unit == "f":
+                    pairsel.check_frames(pairs, len(rsel), int(o["delta"]), False)
+                else:
+                    dlt = float(o["delta"]) if unit == "r" else math.radians(float(o["delta"]))
+                    pairsel.check_chain(pairs, pairsel.consecutive_angles(Rs), dlt, 1e-7, "angle")
+            except Bad as b:
+                raise Mismatch("evo_rpe: the stored pair chain %s is not the selection on the processed %s: %s" % (
+                    pairs[:8], "reference" if src_is_ref else "estimate", b.msg), observed="pair_selection", clause=b.clause)
+    if chain0 or (stored_idx is None and unit == "f" and not o["all_pairs"]):
+        n = nvals + 1
+        pairs = [(i, i + 1) for i in range(n - 1)]
+        vals, kept = rm.rpe_values(sref["poses"], sest["poses"], pairs, relation)
+        if relation == "point_distance_error_ratio":
+            if len(kept) != len(pairs):
+                raise Mismatch("a stored pair has zero reference distance although such pairs are skipped", observed="ratio_zero")
+        fact = 1.0
+        cu = o.get("change_unit")
+        if cu:
+            if relation in ("translation_part", "point_distance"):
+                fact = pipeline.UNIT_FACT[cu]
+            elif relation == "rotation_angle_rad":
+                fact = 180.0 / math.pi
+            elif relation == "rotation_angle_deg":
+                fact = math.pi / 180.0
+        scale = 4 * (max(float(np.abs(sref["P"]).max()), float(np.abs(sest["P"]).max())) + 1.0)
+        for k in range(nvals):
+            if relation == "point_distance_error_ratio":
+                dr = float(np.linalg.norm(sref["P"][k + 1] - sref["P"][k]))
+                tol = (64 * rm.EPS * scale) / dr * 100 * 4 + 1e-9 * abs(vals[k])
+            else:
+                tol = tol_for(relation, scale, vals[k]) * abs(fact) * 4 + 1e-12 * abs(vals[k] * fact)
+            if not abs(got[k] - vals[k] * fact) <= tol:
+                raise Mismatch("stored RPE value %d is %r, definition on the stored pair gives %r (%s)" % (k, float(got[k]), float(vals[k] * fact), relation),
+                               observed="value", relation=relation)
+    st_ref = rm.statistics(got)
+    for k, v in st_ref.items():
+        if not abs(float(arch["stats"][k]) - v) <= 1e-9 * max(abs(v), abs(float(arch["stats"][k]))) + 1e-300 + (1e-9 * abs(st_ref["mean"]) if k == "std" else 0):
+            raise Mismatch("stats.json %s = %r, values give %r" % (k, arch["stats"][k], v), observed="stats")
+    return "cli/%s/%s/%s" % (fmt, unit, "all" if o["all_pairs"] else "cons")
+
+
+def _mk_rpe_cli(base, relation, unit, dsel, all_pairs, from_ref, tol):
+    c = dict(base)
+    o = dict(base["opts"])
+    o["relation"] = relation
+    rel = pipeline.REL_CLI.get(relation, relation)
+    if o.get("change_unit"):
+        if rel in ("translation_part", "point_distance"):
+            pass
+        elif rel == "rotation_angle_rad":
+            o["change_unit"] = "deg"
+        elif rel == "rotation_angle_deg":
+            o["change_unit"] = "rad"
+        else:
+            o["change_unit"] = None
+    o["delta_unit"] = unit
+    o["delta"] = {"f": dsel["frames"], "m": dsel["m"], "r": dsel["r"], "d": math.degrees(dsel["r"])}[unit]
+    o["all_pairs"] = all_pairs
+    o["pairs_from_reference"] = from_ref
+    o["delta_tol"] = tol
+    c["opts"] = o
+    return c
+
+
+from vf.checks.c01 import st_cli as _st_ape_cli
+st_cli = st.builds(_mk_rpe_cli, _st_ape_cli,
+                   st.sampled_from(sorted(pipeline.REL_CLI) + ["point_distance_error_ratio"]), st.sampled_from(["f", "f", "r", "d", "m"]),
+                   st.fixed_dictionaries({"frames": st.integers(1, 4), "m": st.sampled_from([0.05, 1.0, 30.0]), "r": st.sampled_from([0.05, 0.3, 1.0])}),
+                   st.booleans(), st.booleans(), st.sampled_from([0.1, 0.5]))
+SUBS.append(Sub("cli", sub_cli, st_cli, 800, 30000, nontrivial=lambda c: True, shards_quick=8))
